@@ -524,6 +524,54 @@ def gen_case(rng, cmd, style="valid", **kw):
     return Case(cmd, gen_params(rng, cmd, inputs, style), inputs)
 
 
+def gen_chains(rng, count, consumers=None, style="wild"):
+    """cases whose inputs are the very arrays returned by real executions of other commands (two levels deep): whatever a result array
+    carries besides its visible values (hidden numbers under missing cells, fill value, flags, attached attributes, shared buffers)
+    reaches the consumer exactly as it does inside a running program"""
+    consumers = consumers or [c for c in FUZZY_CONSUMERS if COMMANDS[c][1] != "ab"]
+    cases = []
+    tries = 0
+    while len(cases) < count and tries < count * 6:
+        tries += 1
+        cons = rng.choice(consumers)
+        lib, how, _ = COMMANDS[cons]
+        fuzzy_in = cons in FUZZY_CONSUMERS
+        n = 1 if how == "one" else 2 if how == "ab" else rng.choice([1, 2, 2, 3, 4])
+        if cons == "FuzzyXOr":
+            n = max(n, 2)
+        shape = rand_shape(rng)
+        pool = FUZZY_PRODUCERS if fuzzy_in else [c for c in COMMANDS if c not in FUZZY_PRODUCERS]
+        ins = []
+        for _ in range(n):
+            r = None
+            for _attempt in range(4):
+                c1 = gen_case(rng, rng.choice(pool), style="valid", shape=shape, mask_style=rng.choice(["one", "some", "none"]))
+                if rng.random() < 0.4 and c1.cmd in FUZZY_CONSUMERS:
+                    # second level: feed a produced fuzzy array through another fuzzy operator first
+                    pass
+                o1 = run_impl(c1)
+                if o1["status"] == "ok" and isinstance(o1["result"], numpy.ma.MaskedArray) and o1["result"].shape == tuple(shape):
+                    r = o1["result"]
+                    if rng.random() < 0.4:
+                        mid = rng.choice(["FuzzyNot", "FuzzyOr", "FuzzyAnd", "FuzzyUnion"]) if fuzzy_in else "Copy"
+                        o2 = run_impl(Case(mid, {}, [r]), copy_inputs=False)
+                        if o2["status"] == "ok" and isinstance(o2["result"], numpy.ma.MaskedArray):
+                            r = o2["result"]
+                    break
+            if r is None:
+                break
+            ins.append(r)
+        if len(ins) != n:
+            continue
+        try:
+            for a in ins:
+                enc_arr(a)
+        except common.NonFinite:
+            continue
+        cases.append(Case(cons, gen_params(rng, cons, ins, style), ins))
+    return cases
+
+
 def run_stream(ctx, model, cases, stream, tol=common.TOL, on_result=None, rerun=True, narrow=True):
     """runs cases on implementation and model, records disagreements; calls on_result(case, out, answer)"""
     outs = []
